@@ -7,7 +7,10 @@ COMMON_ASSUME = [
 ]
 
 def c14(tier):
-    return [
+    wide = [Harness('VHarnessTokenRoundTrip4', 'cashu', ['cashu/zz_verif_cashu.go'], models=('std', 'crypto', 'json'), panic_mode='obligation',
+                bounds='as VHarnessTokenRoundTrip with exactly 4 proofs (every pattern of equal / different keyset ids, e.g. A B A B)',
+                must_reach=('round-trip', 'not-built'), timeout_s=3000)] if tier == 'thorough' else []
+    return wide + [
         Harness('VHarnessDecodeAny', 'cashu', ['cashu/zz_verif_cashu.go'], models=('std', 'crypto', 'json'), panic_mode='obligation',
                 bounds='token = arbitrary string of any length; JSON/CBOR payload = havoc value of the static type with lists <= 2',
                 must_reach=('decoded', 'rejected')),
